@@ -1,5 +1,6 @@
 import LachesisVerif.Gen.FactsCons
 import LachesisVerif.Gen.FactsVec
+import LachesisVerif.Model.TempId
 /-!
 # Structural expectations of the consensus / vector-index models
 
@@ -19,6 +20,22 @@ namespace Facts
 theorem build_transaction :
     Gen.FactsCons.buildSetsFreshID = true ∧ Gen.FactsCons.buildDropsAlways = true ∧
     Gen.FactsCons.buildAddsBeforeBuild = true := by decide
+
+/-- `uniqueID.sample` (the temporary ids of `Build`): the counter is advanced, then right-aligned in
+    the whole 24-byte id by `FillBytes` — the shape `Model.TempId.sample` models -/
+theorem sample_shape :
+    Gen.FactsCons.sampleIncrements = true ∧ Gen.FactsCons.sampleFillsAllBytes = true ∧
+    Gen.FactsCons.sampleIncrementsBeforeFill = true := by decide
+
+/-- C07, "an id never denotes two different events" for the temporary ids of `Build`: the j-th and
+    the k-th `Build` of an instance (fewer than 2^192 builds) get different well-formed 24-byte ids.
+    (`FillBytes` panics from 2^192 builds on; the pre-fix left-aligned bytes and an 8-bit counter
+    repeat after 256: `Model.TempId.low_byte_repeats`; directed case `corpus/cons/build-id-reuse.ops`.) -/
+theorem temp_ids_never_reused (j k : Nat) (hj : j < 256 ^ 24) (hk : k < 256 ^ 24) (hne : j ≠ k) :
+    Model.TempId.sample j ≠ Model.TempId.sample k ∧ (Model.TempId.sample k).length = 24 :=
+  ⟨fun h => hne (Model.TempId.sample_injective j k hj hk h), (Model.TempId.sample_wf k).1⟩
+
+example : Model.TempId.sample 258 = [0,0,0,0,0,0,0,0,0,0,0,0,0,0,0,0,0,0,0,0,0,0,1,2] := by decide
 
 /-- `IndexedLachesis.Process`: `Add`, then the Orderer's `Process`, then `Flush` at top level (reached
     only on success), with a deferred `DropNotFlushed` (roll-back on every early return) -/
